@@ -94,7 +94,7 @@ def save_file(
             out_filehandler.write(EOL)
     else:
         out_filehandler.write(output_buffer)
-    out_filehandler.close
+    out_filehandler.close()
 
 # ******************************************************************************
 
